@@ -59,6 +59,22 @@ def structure(path, kind, page, relro=True):
     if s0 and (s0["type"] or s0["name_off"] or s0["offset"] or s0["entsize"] or s0["align"] or s0["flags"] or s0["addr"] or s0["info"]
                or (s0["size"] and e.e_shnum) or (s0["link"] and e.e_shstrndx != 0xffff)):
         bad.append(f"section header 0 is not the null header the gABI requires (flags {s0['flags']:#x}, address {s0['addr']:#x})")
+    # -- the tables that describe the file itself
+    for nm in (".symtab", ".strtab", ".shstrtab", ".dynsym", ".dynstr", ".dynamic"):
+        n = sum(1 for s in secs if s["name"] == nm)
+        if n > 1:
+            bad.append(f"{n} sections named {nm}")
+    for s in secs:
+        if s["type"] in (2, 11):              # SYMTAB / DYNSYM
+            lk = e.shdrs[s["link"]] if s["link"] < len(e.shdrs) else None
+            if lk is None or lk["type"] != 3:
+                bad.append(f"{s['name']}: sh_link {s['link']} is not a string table")
+            if s["entsize"] != 24 or s["size"] % 24:
+                bad.append(f"{s['name']}: entry size {s['entsize']}, size {s['size']:#x}")
+            elif s["info"] > s["size"] // 24:
+                bad.append(f"{s['name']}: sh_info {s['info']} exceeds the number of symbols")
+    if e.e_shnum and e.e_shstrndx < e.e_shnum and e.shdrs[e.e_shstrndx]["type"] != 3:
+        bad.append("e_shstrndx does not name a string table")
     # -- file extents: headers and every section with bytes in the file are inside it and pairwise disjoint
     ext = [("ELF header", 0, 64)]
     if e.e_phnum:
@@ -123,6 +139,8 @@ def structure(path, kind, page, relro=True):
             continue
         if tbss and not homes:
             continue                       # GNU convention: .tbss takes no address space of its own
+        if s["size"] == 0 and homes:
+            homes = homes[-1:]              # an empty section on the boundary of two segments belongs to either
         if len(homes) != 1:
             bad.append(f"{s['name']} [{s['addr']:#x}+{s['size']:#x}] lies inside {len(homes)} LOAD segments")
             continue
@@ -343,9 +361,11 @@ def gen_case(rng):
             opts += [f"--section-start={which}={rng.choice([0x800000, 0x1000000, 0x900010, 0x2000000]):#x}"]
             located = True
     script = None
-    if kind in ("static", "shared") and not located and rng.random() < 0.1:
+    if kind in ("static", "shared") and not located and rng.random() < 0.15:
         script = SCRIPT % rng.choice(["0x400000 + SIZEOF_HEADERS", "0x10000", "0x800000"])
         located = True
+        if rng.random() < 0.5 and "--no-gc-sections" not in opts:
+            opts = [o for o in opts if o != "--gc-sections"] + ["--no-gc-sections"]
     return {"kind": kind, "files": files, "opts": opts, "page": page, "script": script, "located": located, "nobj": nobj}
 
 
